@@ -200,8 +200,11 @@ func stateTransitionsRoot(p *Program, id string, root *ssa.Function) []Obligatio
 			}
 			what = "candidate entry only from PreCandidate with a prevote quorum (or re-entry)"
 		case "PreCandidate":
-			allowed = func(pt int) bool { return sp.Val(pt, iState) == F && sp.Val(pt, iSelf) == 1 }
-			what = "pre-candidacy only from Follower and only for a voter"
+			// (from Candidate: a candidate whose election timed out asks for prevotes again, PREVOTE-TOKEN)
+			allowed = func(pt int) bool {
+				return (sp.Val(pt, iState) == F || sp.Val(pt, iState) == C) && sp.Val(pt, iSelf) == 1
+			}
+			what = "pre-candidacy only from Follower (or from a Candidate whose election timed out) and only for a voter"
 		case "increment":
 			allowed = func(pt int) bool {
 				s := sp.Val(pt, iState)
